@@ -4,6 +4,7 @@
 mod engine;
 mod gens;
 mod props;
+mod runners;
 
 use engine::case::*;
 use engine::worker;
@@ -38,6 +39,7 @@ fn cx_from(m: &HashMap<String, String>) -> Cx {
         render: m.contains_key("render"),
         strict: m.contains_key("strict"),
         no_exclude: m.get("no-exclude").map(|s| s.split(',').map(|x| x.to_string()).collect()).unwrap_or_default(),
+        dry: m.contains_key("dry"),
     }
 }
 
